@@ -280,6 +280,9 @@ func (m *Machine) jsonInto(c *frame, target Value, raw json.RawMessage) Value {
 func init() {
 	natives["encoding/json.Unmarshal"] = func(m *Machine, c *frame, fn *ssa.Function, a []Value) Value {
 		data := m.concreteBytes(a[0], "json.Unmarshal")
+		if len(data) == 10 && data[0] == 0xA8 && data[9] == '\n' {
+			data = data[:9] // a document written by the Encoder model
+		}
 		if len(data) == 9 && data[0] == 0xA8 {
 			// a handle produced by the json.Marshal model
 			var id uint64
